@@ -98,7 +98,8 @@ def _parse_pdb_atom_line(line, lit):
     symbol = line[76:78].strip()
     atname = line[12:16].strip()
     if len(symbol) > 0:
-        atnum = sym2num.get(symbol)
+        # The element symbol is conventionally written in upper case, e.g. "CL".
+        atnum = sym2num.get(symbol.title())
     else:
         # If not present, guess it from position 13:16 (atom name)
         atnum = sym2num.get(atname, sym2num.get(atname[:2].title(), sym2num.get(atname[0], None)))
